@@ -334,6 +334,9 @@ class Verdict:
 
     def fail(self, key: str, desc: str, replay: dict):
         """A non-conforming observation. key identifies the specific failing case."""
+        rk = os.environ.get('PI2_REPLAY_KEY')
+        if rk is not None and key != rk:
+            return          # replay mode: only the recorded case is of interest
         for k in self.known:
             if re.fullmatch(k['match'], key):
                 self.known_hit.setdefault(k['id'], [k, 0])[1] += 1
@@ -362,7 +365,7 @@ class Verdict:
                 h = hashlib.sha256(key.encode()).hexdigest()[:10]
                 path = os.path.join(rdir, f'{self.pid}-{h}.json')
                 with open(path, 'w') as f:
-                    json.dump({'property': self.pid, 'key': key, 'what': desc, 'case': replay}, f, indent=1)
+                    json.dump({'property': self.pid, 'key': key, 'what': desc, 'seed': SEED, 'tier': self.tier, 'case': replay}, f, indent=1)
                 print(f'VIOLATION property={self.pid} replay={path}')
                 print(f'  {desc}'[:600])
             if len(self.violations) > 8:
